@@ -586,6 +586,46 @@ def utf8_prefix(fn, A, node):
     return None, "no from_utf8 over peek_bytes of the same Unstructured found"
 
 
+def byte_array_source(F, fn):
+    """None when, on every path of `fn` that returns Ok(r), r is (a pointer-cast view of) the bytes handed out by u.bytes(..);
+    otherwise what it is instead"""
+    from . import sym as S
+    cache = F.__dict__.setdefault("_byte_array_source", {})
+    if fn["id"] in cache:
+        return cache[fn["id"]]
+    why = None
+    try:
+        paths = S.Sym(F, fn).run(split_result=True)
+    except S.TooManyPaths:
+        paths = None
+        why = "too many paths"
+    n_ok = 0
+    for p in paths or []:
+        if p.done and p.done[0] == "panic":
+            continue
+        r = p.result
+        if r is None or r[0] != "ctor" or r[1] != S.OK or len(r[2]) != 1:
+            continue
+        n_ok += 1
+        t = r[2][0]
+        for _ in range(12):
+            if t[0] == "cast":
+                t = t[1]
+            elif t[0] == "call" and t[1] in ("core::ptr::from_ref", "core::ptr::const_ptr::<impl *const T>::cast") and t[2]:
+                t = t[2][0]
+            elif t[0] == "proj" and t[2] == S.OK and t[1][0] == "call" and (t[1][1] == TRY_INTO or t[1][1].endswith("::try_into") or "TryFrom<&" in t[1][1]) and len(t[1][2]) == 1:
+                t = t[1][2][0]
+            else:
+                break
+        if not (t[0] == "proj" and t[2] == S.OK and t[1][0] == "call" and t[1][1] == BYTES):
+            why = "the returned reference is %s on a path, not the bytes handed out by u.bytes(..): its lifetime is not tied to the input" % S.show(t)[:80]
+            break
+    if why is None and n_ok == 0:
+        why = "no path returns a reference"
+    cache[fn["id"]] = why
+    return why
+
+
 def _re_ref_array(ty):
     return re.match(r"^&(?:'\w+ )?\[u8; N\]$", ty or "") is not None
 
@@ -634,6 +674,11 @@ def transparent_cast(F, fn, A, ev, kind):
             ok = m is not None
     if not ok:
         return None, "pointer chain is %s (and %d cast-like expressions in the function); expected &[u8; N] -> *const [u8; N] -> *const ByteArray<N>" % (tys, len(steps_all))
+    # the reference that is returned carries a lifetime the signature does not tie to anything: on every path it must point into the
+    # Unstructured's own data (the Ok value of u.bytes(..)), never at a local
+    why = byte_array_source(F, fn)
+    if why:
+        return None, why
     if kind.startswith("cast:"):
         f, t = ev["from"]["s"], ev["to"]["s"]
         allowed = [("*const [u8; 32]", "*const serde_bytes::bytearray::ByteArray<32>"), ("*const serde_bytes::bytearray::ByteArray<32>", "*const ()"), ("*const ()", "usize")]
